@@ -8,6 +8,7 @@ import Flumine.DriverWorld
 import Flumine.DriverRef
 import Flumine.DriverMerge
 import Flumine.DriverDispatch
+import Flumine.DriverLive
 open Flumine Flumine.Proto
 
 def parseLadder? (s : String) : Option LadderDef :=
@@ -106,6 +107,8 @@ def handlePacks (toks : List String) : Option String := do
 def handle (toks : List String) : String :=
   match toks with
   | "packs" :: _ => (handlePacks toks).getD "bad-op"
+  | "live" :: _ => (DriverLive.handle toks).getD "bad-op"
+  | "live.calls" :: _ => (DriverLive.handle toks).getD "bad-op"
   | "dispatch" :: _ => (DriverDispatch.handle toks).getD "bad-op"
   | "dispatch.close" :: _ => (DriverDispatch.handle toks).getD "bad-op"
   | "merge.run" :: _ => (DriverMerge.handle toks).getD "bad-op"
